@@ -3,7 +3,7 @@
     Proofs/ArithProofs.v about the model Exchange/Arith.v. *)
 From Coq Require Import ZArith List.
 Import ListNotations.
-From PV Require Import Exchange.Arith Proofs.ArithProofs.
+From PV Require Import Exchange.Arith Proofs.ArithProofs Exchange.FeeQuote Proofs.FeeQuoteProofs.
 Open Scope Z_scope.
 
 (** Seller and buyer settlement ratio fees: the charge x for price p under ratio rp:rf is the
@@ -118,6 +118,79 @@ Theorem C19_distribution_adds_up : forall ops,
   d_total d = d_module d + recips_sum (d_recips d) /\ 0 <= d_module d /\ Forall (fun p => 0 <= snd p) (d_recips d).
 Proof. intros ops H. exact (dist_run_ok ops dist_empty dist_empty_ok H). Qed.
 Print Assumptions C19_distribution_adds_up.
+
+(** What a market quotes (OrderFeeCalc): for a bid exactly one option per stored buyer ratio whose
+    price denom IS the price's denom — never one of a longer or shorter denom — each the ceiling of
+    price * fee / ratio price in that ratio's fee denom; the quote fails exactly when the market has
+    ratios but none for this denom.  [is_charge r p x] is  r_p*(x-1) < p*r_f <= r_p*x  /\ 0 <= x. *)
+Theorem C19_quoted_buyer_options_exact : forall rs pd p,
+  Forall ratio_ok rs -> 0 <= p ->
+  match buyer_options rs pd p with
+  | Some l => Forall2 (fun r e => fst e = r_fd r /\ is_charge r p (snd e)) (ratios_for rs pd) l
+  | None => rs <> [] /\ ratios_for rs pd = []
+  end.
+Proof. exact buyer_options_spec. Qed.
+Print Assumptions C19_quoted_buyer_options_exact.
+
+Theorem C19_ratios_for_the_price_denom : forall rs pd r,
+  In r (ratios_for rs pd) <-> In r rs /\ r_pd r = pd.
+Proof. exact ratios_for_In. Qed.
+Print Assumptions C19_ratios_for_the_price_denom.
+
+Theorem C19_quote_fails_iff_no_ratio_for_the_denom : forall rs pd p,
+  Forall ratio_ok rs -> 0 <= p ->
+  (buyer_options rs pd p = None <-> rs <> [] /\ forall r, In r rs -> r_pd r <> pd).
+Proof. exact buyer_options_none_iff. Qed.
+Print Assumptions C19_quote_fails_iff_no_ratio_for_the_denom.
+
+Theorem C19_quoted_seller_fee_exact : forall rs pd p,
+  Forall ratio_ok rs -> 0 <= p ->
+  match seller_ratio_fee rs pd p with
+  | Some (Some x) => exists r, In r rs /\ r_pd r = pd /\ r_fd r = pd /\ is_charge r p x
+  | Some None => rs = []
+  | None => rs <> [] /\ forall r, In r rs -> ~ (r_pd r = pd /\ r_fd r = pd)
+  end.
+Proof. exact seller_ratio_fee_spec. Qed.
+Print Assumptions C19_quoted_seller_fee_exact.
+
+Theorem C19_charge_unique : forall r p x y, ratio_ok r -> is_charge r p x -> is_charge r p y -> x = y.
+Proof. exact is_charge_unique. Qed.
+Print Assumptions C19_charge_unique.
+
+(** The fee meter of a transaction, filled message by message under the key (message type,
+    recipient) and read per recipient: after ANY list of messages the total is the sum of the fees,
+    every recipient's reading is the sum of its floor shares over all message types naming it, the
+    module's reading is the rest, and for any duplicate-free recipient list covering the named
+    recipients the parts add up to the total. *)
+Theorem C19_tx_meter_exact : forall ops, Forall mop_ok ops ->
+  meter_total (meter_run ops) = fees_total ops /\
+  meter_for (meter_run ops) None = module_parts ops /\
+  forall r, meter_for (meter_run ops) (Some r) = shares ops r.
+Proof. exact meter_run_spec. Qed.
+Print Assumptions C19_tx_meter_exact.
+
+Theorem C19_tx_parts_add_up : forall ops R, NoDup R -> Forall mop_ok ops ->
+  (forall o r, In o ops -> names o = Some r -> In r R) ->
+  meter_total (meter_run ops)
+  = meter_for (meter_run ops) None + fold_right (fun r acc => meter_for (meter_run ops) (Some r) + acc) 0 R.
+Proof. exact meter_parts_add_up. Qed.
+Print Assumptions C19_tx_parts_add_up.
+
+Theorem C19_tx_shares_nonnegative : forall ops r, Forall mop_ok ops -> 0 <= shares ops r.
+Proof. exact shares_nonneg. Qed.
+Print Assumptions C19_tx_shares_nonnegative.
+
+(** Non-vacuity of the two blocks above: prefix-related price denoms (2 = "pea", 3 = "peach",
+    4 = "peachy") and two message types paying recipient 0. *)
+Example C19_witness_quotes :
+  buyer_options [ {| r_pd := 3; r_fd := 0; r_p := 100; r_f := 1 |};
+                  {| r_pd := 4; r_fd := 0; r_p := 100; r_f := 7 |};
+                  {| r_pd := 4; r_fd := 5; r_p := 50; r_f := 3 |} ] 3%N 1001 = Some [(0%N, 11)] /\
+  buyer_options [ {| r_pd := 3; r_fd := 0; r_p := 100; r_f := 1 |} ] 2%N 1000 = None /\
+  let ops := [(0%N, 800, 7500, Some 0%N); (1%N, 400, 5000, Some 0%N); (1%N, 401, 5000, Some 1%N)] in
+  meter_for (meter_run ops) (Some 0%N) = 800 /\ meter_for (meter_run ops) (Some 1%N) = 200 /\
+  meter_for (meter_run ops) None = 601 /\ meter_total (meter_run ops) = 1601.
+Proof. vm_compute. repeat split. Qed.
 
 (** Non-vacuity: concrete inputs beyond 2^64 meet the hypotheses and round as stated. *)
 Example C19_witness :
